@@ -602,7 +602,7 @@ def main(chk: C.Check, build: C.Build) -> None:
     #        names, depth, fraction in thorough, fraction in quick
     plan = [(1, 2, 1.0, 0.25), (1, 3, 1.0, 0.25), (1, 4, 1.0, 0.1), (2, 2, 1.0, 0.1),
             (2, 3, 1.0, 0.016), (3, 2, 1.0, 0.016),
-            (2, 4, 0.006, 0.0003), (3, 3, 0.002, 0.00005), (3, 4, 0.00001, 0.00000025)]
+            (2, 4, 0.006, 0.0003), (3, 3, 0.001, 0.00005), (3, 4, 0.000005, 0.00000025)]
     for k, d, f_th, f_q in plan:
         shapes = fam_shapes(k)
         total = len(shapes) ** d
@@ -627,7 +627,7 @@ def main(chk: C.Check, build: C.Build) -> None:
         if r.random() < 0.03 and len(tpls) > 1:
             cases.append((tpls, ("wrap", [(r.random() < 0.5, entry[1])]), limit))
             fam_wrapped += 1
-    nrand = 600 if not thorough else 25000
+    nrand = 600 if not thorough else 15000
     for _ in range(nrand):
         cases.append(rand_case(r, thorough))
 
@@ -641,6 +641,10 @@ def main(chk: C.Check, build: C.Build) -> None:
     nontriv: set[str] = set()
 
     def agreed(outs: list[tuple], tpls: dict, entry: tuple, limit: int) -> tuple | None:
+        depth_errors = {("err", "ContextDepthError"), ("err", "RecursionError")}
+        if set(outs) == depth_errors:
+            # the async path uses more Python frames per level: one mechanism, see the RecursionError finding
+            return ("err", "RecursionError")
         if any(o != outs[0] for o in outs):
             chk.finding("oracle:sync-async-or-caching-differ",
                         f"DictLoader/sync, DictLoader/async, Caching/sync, Caching/async gave {outs}",
@@ -659,7 +663,7 @@ def main(chk: C.Check, build: C.Build) -> None:
         if o == ("err", "RecursionError") and limit > 10:
             # CPython's recursion limit came before context_depth_limit. Recorded mechanism when the
             # page is infinite; the tie is checked at a limit where ContextDepthError comes first.
-            sp = expected_by_spec(tpls, names) if guard else "n/a"
+            sp = expected_by_spec(tpls, names) if all(n in tpls for n in names) else "n/a"
             chk.finding("recursive-block-structure-RecursionError" if sp is None
                         else "oracle:RecursionError-on-a-finite-page",
                         "RecursionError (not a LiquidError) at context_depth_limit=%d" % limit,
